@@ -112,7 +112,8 @@ def gen_schema_x(rng, idx, max_depth=3, defaults=True, top_mand=0.25, uniques=0.
         n.userord = (not config) or rng.random() < 0.4
         r = rng.random()
         if r < 0.3 and defaults and config:
-            pool = ty.pool()
+            # "" cannot be a yang:value anchor in a user-ordered leaf-list (finding F52 of component diff)
+            pool = [v for v in ty.pool() if v != b"" or not n.userord]
             n.dflts = rng.sample(pool, rng.randrange(1, min(3, len(pool)) + 1))
         elif r < 0.45 and not nomand[0]:
             n.min = rng.choice([1, 1, 2])
@@ -205,7 +206,9 @@ def gen_schema_x(rng, idx, max_depth=3, defaults=True, top_mand=0.25, uniques=0.
         for _ in range(rng.choice([1, 1, 2])):
             if not cand:
                 break
-            first = rng.choice(cand)
+            # leaves with a default below a case / presence container are where "default in use" matters (F60)
+            pref = [c for c in cand if c.dflt is not None and c.parent is not lst]
+            first = rng.choice(pref) if pref and rng.random() < 0.5 else rng.choice(cand)
             same = [c for c in cand if c.config == first.config and c is not first]
             u = [first] + (rng.sample(same, 1) if same and rng.random() < 0.5 else [])
             if not any(set(map(id, u)) == set(map(id, v)) for v in lst.uniques):
@@ -312,7 +315,7 @@ class XTreeGen(tg.TreeGen):
                 seen = set()
                 for n in list(insts):
                     for _ in range(40):
-                        t = uniq_tuple(n, lst, u)
+                        t = uniq_tuple(n, lst, u, rfc=True)
                         if t is None or t not in seen:
                             break
                         # collision: drop the instance if allowed, else change / remove one of its unique leaves
@@ -720,6 +723,16 @@ def full_eq(a, b):
     return all(full_eq(x, y) for x, y in zip(a.kids, b.kids))
 
 
+def has_keyless_with_implicit(n):
+    """a key-less list instance in the subtree below which validation will create implicit nodes"""
+    def implicit_below(sn):
+        return any((k.kind == "leaf" and k.dflt is not None) or (k.kind == "leaflist" and k.dflts) or k.np_cont() or
+                   (k.kind in ("choice", "case") and implicit_below(k)) for k in sn.kids)
+    if n.sn.kind == "list" and not n.sn.keys and implicit_below(n.sn):
+        return True
+    return any(has_keyless_with_implicit(k) for k in n.kids)
+
+
 def addr_step(n):
     sn = n.sn
     if sn.kind == "list" and sn.keys:
@@ -749,13 +762,16 @@ class HistGen:
         """-> (steps, explicit trees after every validation)"""
         E = []
         steps, trees = [], []
+        self.feats = []          # per validation: features of the edit in front of it (for the finding predicates)
         for i in range(nvalid):
+            self.cur = set()
             B = self.g.tree() if i == 0 else self.g.edit(E, rate=self.rng.choice([0.15, 0.3, 0.5]))
             ops = []
             self.ops_level("-", self.s.top, E, B, ops, validated=(i > 0))
             if len(steps) + len(ops) + 1 > self.max_tokens:
                 break
             steps += ops + ["V"]
+            self.feats.append(sorted(self.cur))
             E = B
             trees.append([n.clone() for n in B])
         return steps, trees
@@ -763,11 +779,17 @@ class HistGen:
     # -- the primitives that take A to B at one sibling level ---------------------------------------------------------
     def C(self, paddr, n, out, validated):
         """create subtree n below paddr; a non-presence container whose default instance exists may be filled in place"""
+        if n.sn.np_cont() and validated and n.sn.parent is not None and n.sn.parent.kind == "case":
+            validated = False       # a container of a case exists only once the case has data: always give the whole subtree
         if n.sn.np_cont() and validated and self.rng.random() < 0.5:
             a = join_addr(paddr, addr_step(n))
             for k in n.kids:
                 self.C(a, k, out, validated)
             return
+        if n.sn.np_cont() and paddr != "-" or (n.sn.np_cont() and self.was_validated):
+            self.cur.add("np-container-given-as-new-instance")
+        if has_keyless_with_implicit(n):
+            self.cur.add("implicit-below-keyless-list")
         out.append("C:%s:%s" % (paddr, tg.tok([n])))
 
     def old_case_sids(self, skids, A, B):
@@ -787,6 +809,7 @@ class HistGen:
         return res
 
     def ops_level(self, paddr, skids, A, B, out, validated):
+        self.was_validated = validated
         keep_for_autodel = self.old_case_sids(skids, A, B)
         sids = []
         for n in A + B:
